@@ -9,4 +9,5 @@ MCProg == (1 :> <<[api |-> "set", key |-> "k3", val |-> "a", chunks |-> 2], [api
 MCPre == {[key |-> "k1", val |-> "o1"], [key |-> "k2", val |-> "o2"]}
 MCDebris == {[name |-> "old", age |-> 4000]}
 NoKeyShards == <<>>
+NoPreRO == {}
 ====
